@@ -592,6 +592,7 @@ func TestCheck(t *testing.T) {
 				lmu.Unlock()
 			}
 		})
+		fmt.Printf("C19: deviation level %d: %d of %d schedules run, %.0fs elapsed\n", b, done, len(jobs), r.Elapsed())
 		if done == len(jobs) && !r.IsCapped() {
 			for _, sc := range scs {
 				if b <= sc.maxBound {
@@ -641,6 +642,7 @@ func TestCheck(t *testing.T) {
 			os.Exit(3)
 		}
 	}
+	fmt.Printf("C19: self-check done, %.0fs elapsed\n", r.Elapsed())
 	minCompleted := 2
 	var scNames []string
 	for _, sc := range scs {
